@@ -70,6 +70,21 @@ impl Subpatterns {
                 continue;
             };
 
+            // The source must be a regex on its own: something like `a)|(b` would close the
+            // group it is wrapped in and leak into the surrounding pattern
+            let wrapper_len = if pattern.unicode() { "(?u:" } else { "(?-u:" }.len();
+            let inner = &subpattern.pattern[wrapper_len..subpattern.pattern.len() - 1];
+            if let Err(msg) = Pattern::compile(
+                false,
+                inner,
+                pattern.token().to_string(),
+                pattern.unicode(),
+                false,
+            ) {
+                errors.err(msg, pattern.span());
+                continue;
+            }
+
             // Test compile the subpattern for better error messages
             // Compile w/ unicode mode, since the top level flag will set it on or off anyway
             match Pattern::compile(
